@@ -21,23 +21,30 @@ LEVEL_TEXT = (
     "tree, as eval_const recurses); the chain rewrites (y+c1)+c2 -> y+c3 and (y-c1)-c2 -> y-c3 produce an in-range c3 and the same run-time "
     "value for every y, and c3 is the only in-range constant with that property; operations that are undefined for their constant operands "
     "(x % 0, negative shift count) are left unfolded and the pass raises nothing on any well-formed integer constant tree. The operator table and the integer type table of the model are "
-    "re-checked (decide) against a dump of the live ppci objects on every run; the hand model of correct/cast/eval_const/on_block is tied to the "
+    "re-checked (decide) against a dump of the live ppci objects on every run; the leaf helpers correct/cast/irem are translated from the source "
+    "text of the checked tree to Lean (Gen.Py_constantfolding, T1 py2lean) on every run and proved equal to the hand model for every value and "
+    "type descriptor (gen_correct_eq_model, gen_cast_eq_model, gen_irem_eq_model; gen_correct_eq_wrap, gen_cast_agrees, gen_irem_eq_tmod restate the "
+    "facts the folding theorems rest on about the regenerated functions); the hand model of eval_const/on_block (and of the helpers) is tied to the "
     "source by a differential run of the real pass."
 )
 LEVEL_NOTE = (
     "trusted: Lean kernel; axioms propext/Classical.choice/Quot.sound; Spec.IRArith (IR run-time arithmetic written from DESIGN S2, not validated "
-    "against a native run here); hand model <-> source correspondence is sampled (8-bit operand pairs exhaustive in thorough, boundary+random "
+    "against a native run here); the T1 translator translate/py2lean.py and its reading of Python (translate/SEMANTICS.md; `ty` seen through the int "
+    "attributes bits/signed/is_integer and the two isinstance tests) for correct/cast/irem; for eval_const/on_block the hand model <-> source correspondence is sampled (8-bit operand pairs exhaustive in thorough, boundary+random "
     "16/32/64-bit), not proved; CPython int semantics of + - * % << >> abs bit_length as modelled. Not covered: float/ptr casts, '/', '&', '|', '^' "
     "(not in the folder's table, never folded), the replace_by/insert_instruction graph surgery (C02/C03)."
 )
 TECHNIQUE = ("Lean 4 proof (case split over the 8 types, omega on the wrap arithmetic, induction over expression trees) about a hand model, "
-             "+ table translation (ops/types dumped from live objects, decide) + differential correspondence of the real pass with the model")
+             "+ table translation (ops/types dumped from live objects, decide) + source translation (py2lean) of correct/cast/irem with machine-checked "
+             "equality regenerated definition = hand model + differential correspondence of the real pass with the model")
 RULE = ("binop cases: 8-bit types every operand pair per folder operator (thorough; quick: ~45 left operands x all 256 right operands), "
         "16/32/64-bit: boundary set {min,max,min+1,max-1,0,+-1,+-2^k,+-2^k+-1} x boundary/random + small divisors, shift counts over the whole "
         "range 0..bits-1 plus out-of-range counts; casts between all 64 ordered type pairs; chains (y op c1) op c2 incl. mixed operators; nested "
         "constant trees to depth 3. distinct = distinct (tree); non-trivial = exact result outside the type's range (wrap needed), a negative "
         "operand of % or >>, an undefined operation, a value-changing cast, or a chain whose c1+c2 needs wrapping")
 TRUSTED = [
+    "translate/py2lean.py (T1 translator; reading of the Python fragment in translate/SEMANTICS.md) + runtime Model.PyRt/Model.PyInt: "
+    "Gen.Py_constantfolding is its output for correct/cast/irem of ppci/opt/constantfolding.py of the checked tree",
     "hand model Model.ConstFold of ppci/opt/constantfolding.py (Python % = Int.fmod, << = *2^n, >> = floor /2^n, bit_length = log2+1), tied by differential run of the real pass on every check",
     "Gen.ConstFold: dump of ConstantFolder().ops (closure introspection of enhance()), ir.value_types, ir.Binop.ops by harness/c38.py regen()",
     "Spec.IRArith / Spec.ConstExpr: run-time integer semantics of the IR (DESIGN S2); ppci's own ir2py run-time helpers (irem, ishr) follow the same reading",
@@ -108,6 +115,9 @@ def regen(ctx):
     if not p.exists() or p.read_text() != txt:
         p.parent.mkdir(exist_ok=True)
         p.write_text(txt)
+    # T1: translate the leaf helpers correct / cast / irem of the checked tree into Gen/Py_constantfolding.lean
+    from . import t1
+    t1.regen(ctx, "constantfolding")
 
 
 # ----------------------------------------------------------------------------------------------
